@@ -703,7 +703,40 @@ def _add_linear_spec(obj, args):
     return None
 
 
+def _brute_sat(F):
+    import itertools
+    n = F.number_of_variables()
+    cs = [list(c) for c in F.clauses()]
+    if n > 12:
+        return None
+    for bits in itertools.product([False, True], repeat=n):
+        if all(any((l > 0) == bits[abs(l) - 1] for l in c) for c in cs):
+            return True
+    return False
+
+
+def _php_spec(obj, args):
+    m, n, functional, onto, cls = args
+    if m < 0 or n < 0 or m * n > 12:
+        return None
+    from cnfgen.formula.cnf import CNF
+    mod = importlib.import_module("cnfgen.families.pigeonhole")
+    F = mod.PigeonholePrinciple(m, n, functional, onto, formula_class=CNF)
+    if onto and functional:
+        want = (m == n)
+    elif onto:
+        want = (m <= n) and (n == 0 or m > 0)
+    else:
+        want = (m <= n)
+    got = _brute_sat(F)
+    if F.number_of_variables() != m * n or got != want:
+        return {"pigeons": m, "holes": n, "functional": functional, "onto": onto, "variables": F.number_of_variables(),
+                "satisfiable": got, "expected": want}
+    return None
+
+
 ORACLES = {
+    "PigeonholePrinciple": _php_spec,
     "CNFLinear.add_linear": _add_linear_spec,
     "bipartite_shift": _shift_spec,
     "dag_path": _dag_spec("dag_path"),
